@@ -26,15 +26,21 @@ func code(s string) int {
 	return 9
 }
 
-// log is the event log of one case.  pollMu makes a poll (read + log) atomic with respect to the
-// reference consumer's logging, so that the logged order is a linearisation.
+// log is the event log of one case.  Every emitter takes pollMu, and a poll holds it across its
+// load and its log entry: no other event can be logged between a poll's read and its entry, so the
+// logged order is a linearisation the model can follow (state changes themselves are not logged:
+// they are internal steps the model may place anywhere compatible with the log).
 type log struct {
 	rec      director.Recorder
 	pollMu   sync.Mutex
 	refCount atomic.Int64 // values received by the reference subscriber (incl. the initial one)
 }
 
-func (l *log) emit(format string, a ...any) { l.rec.Emit(format, a...) }
+func (l *log) emit(format string, a ...any) {
+	l.pollMu.Lock()
+	l.rec.Emit(format, a...)
+	l.pollMu.Unlock()
+}
 
 // changes seen by the reference subscriber so far (a lower bound of the true number)
 func (l *log) changes() int {
@@ -60,7 +66,7 @@ func (l *log) startRef(s stateable) (cancel func(), done chan struct{}) {
 		defer close(done)
 		for v := range ch {
 			l.pollMu.Lock()
-			l.emit("0,4,0,%d", code(v))
+			l.rec.Emit("0,4,0,%d", code(v))
 			l.refCount.Add(1)
 			l.pollMu.Unlock()
 		}
@@ -72,14 +78,14 @@ func (l *log) startRef(s stateable) (cancel func(), done chan struct{}) {
 func (l *log) poll(s stateable) {
 	l.pollMu.Lock()
 	v := s.GetState()
-	l.emit("0,6,%d", code(v))
+	l.rec.Emit("0,6,%d", code(v))
 	l.pollMu.Unlock()
 	l.pollMu.Lock()
 	b := s.IsRunning()
 	if b {
-		l.emit("0,7,1")
+		l.rec.Emit("0,7,1")
 	} else {
-		l.emit("0,7,0")
+		l.rec.Emit("0,7,0")
 	}
 	l.pollMu.Unlock()
 }
